@@ -373,7 +373,7 @@ void run_C04(void) {
     case_end(1);
   }
   // products on worst-case operands: every kernel, ref and avx2
-  static const int FAMS[] = {QF_ALLMAX, QF_ALTERNATE, QF_SINGLEMAX, QF_NONCANON, QF_NEARMULT, QF_WORD32, QF_WORD32MAX, QF_MIXEDWIDTH};
+  static const int FAMS[] = {QF_ALLMAX, QF_ALTERNATE, QF_SINGLEMAX, QF_NONCANON, QF_NEARMULT, QF_WORD32, QF_WORD32MAX, QF_MIXEDWIDTH, QF_HIGH32};
   for (int k = 0; k < N_KERNELS; k++)
     for (int avx2 = 0; avx2 <= 1; avx2++) {
       if (!q120_kernel_has((q120_kernel_t)k, avx2)) continue;
